@@ -302,6 +302,16 @@ func genDevice(r *RNG, b *iosDev) (*iosDev, []string) {
 					a.Routes = append(a.Routes, pre+rt)
 				}
 				say("manual-routes-in-known-table-without-target-routes")
+				// ... and hand-made routes to the very destinations that the target routes in ANOTHER table (those may
+				// be added or replaced there in this run; seeded change C07-W1 paired them across tables)
+				if r.Chance(60) {
+					for _, rt := range b.Routes {
+						if d := routeDest(rt); routeVRF(rt) != v && !contains(a.Routes, pre+d+" 10.1.1.249") {
+							a.Routes = append(a.Routes, pre+d+" 10.1.1.249")
+						}
+					}
+					say("manual-routes-same-destination-as-target-route-of-other-table")
+				}
 			}
 		}
 	}
@@ -321,6 +331,20 @@ func genDevice(r *RNG, b *iosDev) (*iosDev, []string) {
 		a.Intfs = append(a.Intfs, in)
 		a.Routes = append(a.Routes, "vrf OTHER 10.66.0.0 255.255.0.0 10.99.0.254")
 		say("unmanaged-vrf")
+		if r.Chance(50) {
+			// the unmanaged VRF routes the same destinations as the target does elsewhere (IPv4 and IPv6)
+			for _, rt := range b.Routes {
+				if nr := "vrf OTHER " + routeDest(rt) + " 10.99.0.253"; !contains(a.Routes, nr) {
+					a.Routes = append(a.Routes, nr)
+				}
+			}
+			for _, rt := range b.Routes6 {
+				if nr := "vrf OTHER " + routeDest(rt) + " 2001:db8:ff::99"; !contains(a.Routes6, nr) {
+					a.Routes6 = append(a.Routes6, nr)
+				}
+			}
+			say("unmanaged-vrf-same-destinations-as-target")
+		}
 		// further interfaces of the same unmanaged VRF, each with its own bindings: a generated (-DRC-) ACL,
 		// an ACL shared with a managed interface, a hand-made one
 		for k, n := 0, r.Intn(3); k < n; k++ {
@@ -471,6 +495,15 @@ func parseDev(text string) *iosDev {
 }
 
 // unmanagedView: definitions that must stay exactly as they are.
+// routeDest: the destination of a route (`[vrf X] DEST [MASK] GATEWAY`), without table and gateway.
+func routeDest(r string) string {
+	f := strings.Fields(r)
+	if len(f) > 1 && f[0] == "vrf" {
+		f = f[2:]
+	}
+	return strings.Join(f[:len(f)-1], " ")
+}
+
 func unmanagedView(d *iosDev, managedIntf map[string]bool, vrfs map[string]bool, acls map[string]bool, vrfs6 map[string]bool) string {
 	var sb strings.Builder
 	sb.WriteString(strings.Join(d.Unknown, "\n") + "\n")
